@@ -33,16 +33,21 @@ def env_base():
     return e
 
 
-def feature_list(prop, harnesses, extra=()):
+def feature_list(prop, harnesses, extra=(), tier="quick"):
     feats = {prop.lower(), "twins"}
+    if tier == "thorough":
+        feats.add("deep")
     for h in harnesses:
         feats.add(h["module"])
     feats.update(extra)
     return ",".join(sorted(feats))
 
 
+_TIER = {"tier": "quick"}
+
+
 def target_dir(prop):
-    return os.path.join(BUILD, prop)
+    return os.path.join(BUILD, prop + ("-deep" if _TIER["tier"] == "thorough" else ""))
 
 
 def build(prop, feats, log):
